@@ -437,6 +437,7 @@ def check_builder(case, R):
     if not ok:
         return
     m = np.asarray(m)
+    R.retain(f"builder:{name}", lambda m=m: m.tolist())
     if not R.check(m.shape == (4, 4), "builder:shape", lambda: f"{name}{args}: shape {m.shape}", f"builder:shape:{name}"):
         return
     got = [[float(v) for v in row] for row in m.tolist()]
@@ -460,6 +461,119 @@ def check_builder(case, R):
                     lambda: f"{name}{args}: R u = {ru}, n x u = {nxu}", f"builder:handedness:{name}")
     if name == "scale3d" and all(v == 1 for v in args) or name == "translate3d" and all(v == 0 for v in args):
         R.trivial()
+
+
+# ------------------------------------------------------------------ several transform objects alive at once
+
+PAIR_OPS = HIST_OPS + [
+    ["translate", [100.0, 0.0, -50.0], "root", "call"],
+    ["scale", [2.0, 2.0, 2.0], "root", "call"],
+    ["rotx", -0.7, "origin", "call"],
+    ["rotate", [0.0, 0.0, 1.0], math.pi / 2, "root", "call", "f64"],
+    ["rotate", [1 / math.sqrt(3), 1 / math.sqrt(3), 1 / math.sqrt(3)], 2.1, None, "call", "list"],
+]
+PAIR_INPUTS = [([-1, 0, 0], 1), ([-1, 2, 0, 0], 2)]
+
+
+def check_pair(case, R):
+    """Two transform objects are BUILT first (so whatever the second constructor does can disturb the first), then applied:
+    A(x), B(A(x)), A(x) again, and Transforms(A, B)(x), each judged against the stated map of its own object."""
+    from swcgeom.transforms import Transforms
+
+    ia, ib, ii, bank_k = case
+    opa, opb = PAIR_OPS[ia], PAIR_OPS[ib]
+    p, ri = PAIR_INPUTS[ii]
+    root = ROOTS[ri]
+    R.state(ia, ib, ii)
+    ok, a = R.impl("construct", _instance, opa)
+    if not ok:
+        return
+    ok, b = R.impl("construct", _instance, opb)
+    if not ok:
+        return
+    x, xyz32 = _tree(p, root, bank_k)
+    xyz = [tuple(float(v) for v in q) for q in xyz32]
+    r1 = _apply_checked(R, x, xyz, root, opa, "pair[first-built]:", prepared=a)
+    if r1 is None or R._failed:
+        return
+    y1, got1 = r1[0], r1[1]
+    r2 = _apply_checked(R, y1, got1, got1[0], opb, "pair[second-built]:", prepared=b)
+    if r2 is None or R._failed:
+        return
+    y2, got2 = r2[0], r2[1]
+    r3 = _apply_checked(R, x, xyz, root, opa, "pair[first-built,again]:", prepared=a)
+    if r3 is None or R._failed:
+        return
+    _positions(R, y1, xyz, root, opa, "pair[first result re-inspected]:", a[0])
+    ok, t = R.impl("Transforms", lambda: Transforms(a[1], b[1]))
+    if not ok:
+        return
+    ok, y12 = R.impl("Transforms.__call__", t, x)
+    if not ok:
+        return
+    g12 = [tuple(float(v) for v in row) for row in np.asarray(y12.xyz(), dtype=np.float64).tolist()]
+    n = len(xyz)
+    if R.check(len(g12) == n, "pair:compose:shape", lambda: f"Transforms({opa},{opb}) returned {len(g12)} nodes for {n}"):
+        mag = max(1.0, max(abs(v) for q in got2 for v in q))
+        err = max(abs(g12[i][k] - got2[i][k]) for i in range(n) for k in range(3))
+        R.check(err <= 64 * EPS32 * mag, "pair:compose", lambda: f"Transforms(A,B)(x) differs from B(A(x)) by {err:.3g}: A={opa} B={opb}",
+                f"pair:compose:{opa[0]}+{opb[0]}")
+    R.outcome(opa[0], opb[0], [round(v, 2) for v in got2[-1]])
+
+
+BUILDER_PAIR_CASES = [
+    ["rotate3d", [[0.0, 0.0, 1.0], math.pi / 2, "f64"]],
+    ["rotate3d", [[1 / SQ14, 2 / SQ14, 3 / SQ14], 1.234, "f64"]],
+    ["rotate3d", [[1.0, 0.0, 0.0], -0.7, "list"]],
+    ["rotate3d_x", [1.234]],
+    ["rotate3d_y", [-0.7]],
+    ["rotate3d_z", [math.pi / 2]],
+    ["scale3d", [0.5, 2.0, 3.0]],
+    ["scale3d", [2.0, 2.0, 2.0]],
+    ["translate3d", [1.0, -2.0, 0.5]],
+    ["translate3d", [100.0, 0.0, -50.0]],
+]
+
+
+def _call_builder(name, args):
+    from swcgeom import utils as U
+
+    if name == "rotate3d":
+        return U.rotate3d(_axis_arg(tuple(args[0]), args[2]), args[1])
+    return getattr(U, name)(*args)
+
+
+def check_builder_pair(case, R):
+    """Every ordered pair (triple) of matrix-builder calls: an earlier matrix keeps its content while later ones are built,
+    and writing into a later matrix does not reach an earlier one (the transform classes store these arrays)."""
+    seq = list(case)
+    R.state(seq)
+    mats = []
+    for k in seq:
+        name, args = BUILDER_PAIR_CASES[k]
+        ok, m = R.impl(name, _call_builder, name, args)
+        if not ok:
+            return
+        m = np.asarray(m)
+        mats.append((name, args, m, m.tolist()))
+    for name, args, m, first in mats[:-1]:
+        R.check(m.tolist() == first, "builder-pair:earlier-matrix-changed",
+                lambda: f"{name}{args} changed after later builder calls {[BUILDER_PAIR_CASES[k][0] for k in seq]}",
+                f"builder-pair:earlier-matrix-changed:{name}")
+    last = mats[-1][2]
+    if last.flags.writeable:
+        keep = last.copy()
+        last += 1.0
+        for name, args, m, first in mats[:-1]:
+            if m is last or (name, args) == (mats[-1][0], mats[-1][1]):
+                continue  # the same request again may legitimately be served from the same storage
+            R.check(m.tolist() == first, "builder-pair:matrices-share-storage",
+                    lambda: f"writing into the matrix of {mats[-1][0]} changed the earlier matrix of {name}{args}",
+                    f"builder-pair:matrices-share-storage:{name}")
+        last[...] = keep
+    same = [i for i in range(len(mats) - 1) if mats[i][2] is last and (mats[i][0], mats[i][1]) != (mats[-1][0], mats[-1][1])]
+    R.check(not same, "builder-pair:same-object", lambda: f"{mats[-1][0]} returned the array object of a different earlier call", "builder-pair:same-object")
+    R.outcome(tuple(seq))
 
 
 # ------------------------------------------------------------------ spaces
@@ -548,6 +662,23 @@ def spaces(tier, seed):
                         for l in range(k):
                             yield [op, [i, j, l], bank_k]
 
+    def gen_pairs():
+        for ii in range(len(PAIR_INPUTS) if not quick else 1):
+            for ia in range(len(PAIR_OPS)):
+                for ib in range(len(PAIR_OPS)):
+                    yield [ia, ib, ii, bank_k]
+
+    def gen_bpairs():
+        k = len(BUILDER_PAIR_CASES)
+        for i in range(k):
+            for j in range(k):
+                yield [i, j]
+        if not quick:
+            for i in range(k):
+                for j in range(k):
+                    for l in range(k):
+                        yield [i, j, l]
+
     bounds = {
         "trees": f"all labelled trees (every numbering, root = node 0) with <= 4 nodes{'' if quick else ' + all sorted trees with 5 nodes'} ({len(trees)})",
         "root_positions": [ROOTS[i] for i in roots],
@@ -564,6 +695,11 @@ def spaces(tier, seed):
         Space.of("call-histories", gen_hist, check_history, auto_retain=True,
                  bounds={"transform_objects": len(HIST_OPS), "inputs": HIST_INPUTS, "sequence_length": "2" if quick else "2 and 3",
                          "note": "object built once; same input index twice = the same tree object"}),
+        Space.of("object-pairs", gen_pairs, check_pair, auto_retain=True,
+                 bounds={"transform_objects": len(PAIR_OPS), "ordered_pairs": len(PAIR_OPS) ** 2, "inputs": PAIR_INPUTS,
+                         "note": "both objects constructed before either is applied; A(x), B(A(x)), A(x) again, Transforms(A,B)(x)"}),
+        Space.of("builder-pairs", gen_bpairs, check_builder_pair,
+                 bounds={"builder_calls": len(BUILDER_PAIR_CASES), "sequence_length": "2" if quick else "2 and 3"}),
         Space.of("matrix-builders", lambda: _builder_cases(tier), check_builder,
                  bounds={"cases": sum(1 for _ in _builder_cases(tier)), "axis_forms": ["float64 array", "float32 array", "list"]}),
     ]
